@@ -42,6 +42,17 @@ fn dn_min() -> i64 {
 fn dn_max() -> i64 {
     dby(MAX_YEAR as i64) + 365
 }
+/// the date with day number `n` (built with the constructor only, no chrono arithmetic)
+fn date_of_dn(n: i64) -> NaiveDate {
+    let mut y = (n as f64 / 365.2425).floor() as i64 + 1;
+    while dby(y) + 1 > n {
+        y -= 1;
+    }
+    while dby(y + 1) + 1 <= n {
+        y += 1;
+    }
+    NaiveDate::from_yo_opt(y as i32, (n - dby(y)) as u32).unwrap()
+}
 /// the packed word denotes an existing date of the range (the constructor agrees)
 fn well_formed(d: &NaiveDate) -> bool {
     guard(|| NaiveDate::from_yo_opt(d.year(), d.ordinal()) == Some(*d)).unwrap_or(false)
@@ -84,6 +95,13 @@ fn inst_max() -> i128 {
 }
 fn is_leap_dt(dt: &NaiveDateTime) -> bool {
     dt.time().nanosecond() >= 1_000_000_000
+}
+/// printable form of a result that may be an invalid packed value
+fn pd(d: &NaiveDate) -> String {
+    guard(|| format!("{:?}", d)).unwrap_or_else(|_| format!("<invalid date, packed word {}>", yof(d)))
+}
+fn pdt(d: &NaiveDateTime) -> String {
+    guard(|| format!("{:?}", d)).unwrap_or_else(|_| format!("<invalid date-time, packed date word {} time {:?}>", yof(&d.date()), d.time()))
 }
 fn s_od(r: &Result<Option<NaiveDate>, ()>) -> String {
     match r {
@@ -134,12 +152,14 @@ fn s_td(r: &Result<TimeDelta, ()>) -> String {
 /// at most 40 reports per kind of failure; every failure is counted
 struct Fails(BTreeMap<String, u64>);
 impl Fails {
-    fn hit(&mut self, c: &mut Ctx, what: &str, detail: &str) {
+    fn hit(&mut self, c: &mut Ctx, what: &str, detail: impl FnOnce() -> String) {
         let n = self.0.entry(what.to_string()).or_insert(0);
         *n += 1;
         c.count(&format!("FAIL:{what}"));
         if *n <= 40 {
-            c.fail(what, detail);
+            // a value built by faulty arithmetic may not even be printable
+            let text = guard(detail).unwrap_or_else(|_| "<operands not printable: Debug panicked; see the ar.* op lines>".into());
+            c.fail(what, &text);
         }
     }
 }
@@ -152,9 +172,9 @@ fn date_near_end(c: &mut Ctx) -> NaiveDate {
         _ => c.rng.below(150_000),
     };
     if c.rng.chance(1, 2) {
-        NaiveDate::MIN + Days::new(k)
+        date_of_dn(dn_min() + k as i64)
     } else {
-        NaiveDate::MAX - Days::new(k)
+        date_of_dn(dn_max() - k as i64)
     }
 }
 fn g_date(c: &mut Ctx) -> NaiveDate {
@@ -290,7 +310,7 @@ pub fn run(c: &mut Ctx) {
     let mut fl = Fails(BTreeMap::new());
     let (dmin, dmax) = (dn_min(), dn_max());
     if dn(&NaiveDate::MIN) != dmin || dn(&NaiveDate::MAX) != dmax || NaiveDate::MIN.year() != MIN_YEAR || NaiveDate::MAX.year() != MAX_YEAR {
-        fl.hit(c, "NaiveDate::MIN / MAX are not Jan 1 of MIN_YEAR / Dec 31 of MAX_YEAR", "");
+        fl.hit(c, "NaiveDate::MIN / MAX are not Jan 1 of MIN_YEAR / Dec 31 of MAX_YEAR", || String::new());
     }
 
     // =========================== 1. day counts: checked_add_days / checked_sub_days ===============
@@ -344,30 +364,30 @@ pub fn run(c: &mut Ctx) {
         match &got {
             Ok(Some(r)) => {
                 if !in_range || dn(r) as i128 != target || !well_formed(r) {
-                    fl.hit(c, "adding/subtracting a day count did not move the date by exactly that many days", &format!("{name} {:?} {cnt} -> {:?}", d, r));
+                    fl.hit(c, "adding/subtracting a day count did not move the date by exactly that many days", || format!("{name} {:?} {cnt} -> {}", d, pd(r)));
                 }
                 // operator form agrees
                 if it % 4 == 0 {
                     let op = guard(|| if forward { d + Days::new(cnt) } else { d - Days::new(cnt) });
                     c.op(&format!("{} {} {cnt}", if forward { "ar.opadd" } else { "ar.opsub" }, yof(&d)), &s_d(&op));
                     if op != Ok(*r) {
-                        fl.hit(c, "`NaiveDate ± Days` differs from the checked form", &format!("{:?} {cnt}", d));
+                        fl.hit(c, "`NaiveDate ± Days` differs from the checked form", || format!("{:?} {cnt}", d));
                     }
                 }
             }
             Ok(None) => {
                 if in_range {
-                    fl.hit(c, "a day count leading to a representable date was refused", &format!("{name} {:?} {cnt}", d));
+                    fl.hit(c, "a day count leading to a representable date was refused", || format!("{name} {:?} {cnt}", d));
                 }
                 if it % 16 == 0 {
                     let op = guard(|| if forward { d + Days::new(cnt) } else { d - Days::new(cnt) });
                     c.op(&format!("{} {} {cnt}", if forward { "ar.opadd" } else { "ar.opsub" }, yof(&d)), &s_d(&op));
                     if op.is_ok() {
-                        fl.hit(c, "`NaiveDate ± Days` produced a value although the checked form refuses", &format!("{:?} {cnt}", d));
+                        fl.hit(c, "`NaiveDate ± Days` produced a value although the checked form refuses", || format!("{:?} {cnt}", d));
                     }
                 }
             }
-            Err(()) => fl.hit(c, "checked_add_days/checked_sub_days panicked", &format!("{name} {:?} {cnt}", d)),
+            Err(()) => fl.hit(c, "checked_add_days/checked_sub_days panicked", || format!("{name} {:?} {cnt}", d)),
         }
     }
 
@@ -418,15 +438,15 @@ pub fn run(c: &mut Ctx) {
         match &got {
             Ok(Some(x)) => {
                 if !in_range || dn(x) as i128 != target || !well_formed(x) {
-                    fl.hit(c, "NaiveDate ± TimeDelta did not move by the whole days of the duration (truncated toward zero)", &format!("{name} {:?} {ds} {dnn} -> {:?}", d, x));
+                    fl.hit(c, "NaiveDate ± TimeDelta did not move by the whole days of the duration (truncated toward zero)", || format!("{name} {:?} {ds} {dnn} -> {}", d, pd(x)));
                 }
             }
             Ok(None) => {
                 if in_range {
-                    fl.hit(c, "NaiveDate ± TimeDelta refused a representable result", &format!("{name} {:?} {ds} {dnn}", d));
+                    fl.hit(c, "NaiveDate ± TimeDelta refused a representable result", || format!("{name} {:?} {ds} {dnn}", d));
                 }
             }
-            Err(()) => fl.hit(c, "NaiveDate::checked_add_signed/checked_sub_signed panicked", &format!("{name} {:?} {ds} {dnn}", d)),
+            Err(()) => fl.hit(c, "NaiveDate::checked_add_signed/checked_sub_signed panicked", || format!("{name} {:?} {ds} {dnn}", d)),
         }
         if it % 4 == 0 {
             let op = guard(|| {
@@ -443,7 +463,7 @@ pub fn run(c: &mut Ctx) {
             match (&got, &op) {
                 (Ok(Some(x)), Ok((a, b))) if a == x && b == x => {}
                 (Ok(None), Err(())) => {}
-                _ => fl.hit(c, "`NaiveDate ± TimeDelta` / `±=` disagree with the checked form", &format!("{:?} {ds} {dnn}", d)),
+                _ => fl.hit(c, "`NaiveDate ± TimeDelta` / `±=` disagree with the checked form", || format!("{:?} {ds} {dnn}", d)),
             }
         }
         // differences
@@ -460,18 +480,18 @@ pub fn run(c: &mut Ctx) {
             match &diff {
                 Ok((x, y)) => {
                     if td_ns(x) != (dn(&a) - dn(&b)) as i128 * DAY || x != y {
-                        fl.hit(c, "date difference is not the exact number of days between the operands", &format!("{:?} - {:?} -> {}", a, b, show_td(x)));
+                        fl.hit(c, "date difference is not the exact number of days between the operands", || format!("{:?} - {:?} -> {}", a, b, show_td(x)));
                     }
                     // b + (a − b) = a
                     if guard(|| b.checked_add_signed(*x)) != Ok(Some(a)) {
-                        fl.hit(c, "b + (a − b) ≠ a for dates", &format!("{:?} {:?}", a, b));
+                        fl.hit(c, "b + (a − b) ≠ a for dates", || format!("{:?} {:?}", a, b));
                     }
                     if (a.cmp(&b) as i32) != (td_ns(x).signum() as i32) {
-                        fl.hit(c, "date order does not follow the sign of the difference", &format!("{:?} {:?}", a, b));
+                        fl.hit(c, "date order does not follow the sign of the difference", || format!("{:?} {:?}", a, b));
                     }
                     c.count(if a == b { "ddiff:equal" } else if (a == NaiveDate::MAX && b == NaiveDate::MIN) || (a == NaiveDate::MIN && b == NaiveDate::MAX) { "ddiff:full-range" } else { "ddiff:other" });
                 }
-                Err(()) => fl.hit(c, "date difference panicked", &format!("{:?} - {:?}", a, b)),
+                Err(()) => fl.hit(c, "date difference panicked", || format!("{:?} - {:?}", a, b)),
             }
         }
     }
@@ -511,27 +531,27 @@ pub fn run(c: &mut Ctx) {
             match &got {
                 Ok(Some(r)) => {
                     if !in_range || inst(r) != target || is_leap_dt(r) || !well_formed(&r.date()) || r.time().num_seconds_from_midnight() >= 86_400 {
-                        fl.hit(c, "date-time ± duration is not the date-time exactly that many nanoseconds away", &format!("{name} {:?} {ds} {dnn} -> {:?}", dt, r));
+                        fl.hit(c, "date-time ± duration is not the date-time exactly that many nanoseconds away", || format!("{name} {:?} {ds} {dnn} -> {}", dt, pdt(r)));
                     }
                 }
                 Ok(None) => {
                     if in_range {
-                        fl.hit(c, "date-time ± duration refused although the instant is representable", &format!("{name} {:?} {ds} {dnn}", dt));
+                        fl.hit(c, "date-time ± duration refused although the instant is representable", || format!("{name} {:?} {ds} {dnn}", dt));
                     }
                 }
-                Err(()) => fl.hit(c, "NaiveDateTime::checked_add_signed/checked_sub_signed panicked", &format!("{name} {:?} {ds} {dnn}", dt)),
+                Err(()) => fl.hit(c, "NaiveDateTime::checked_add_signed/checked_sub_signed panicked", || format!("{name} {:?} {ds} {dnn}", dt)),
             }
             // sub = add ∘ neg
             if it % 3 == 0 {
                 let other = guard(|| if add { dt.checked_sub_signed(-td) } else { dt.checked_add_signed(-td) });
                 if other != got {
-                    fl.hit(c, "subtracting a duration differs from adding its negation", &format!("{:?} {ds} {dnn}", dt));
+                    fl.hit(c, "subtracting a duration differs from adding its negation", || format!("{:?} {ds} {dnn}", dt));
                 }
             }
         } else {
             c.count("dt±delta:leap-second-operand(correspondence only; rules are C07's)");
             if got.is_err() {
-                fl.hit(c, "NaiveDateTime::checked_add_signed/checked_sub_signed panicked", &format!("{name} {:?} {ds} {dnn}", dt));
+                fl.hit(c, "NaiveDateTime::checked_add_signed/checked_sub_signed panicked", || format!("{name} {:?} {ds} {dnn}", dt));
             }
         }
         // operator forms
@@ -550,7 +570,7 @@ pub fn run(c: &mut Ctx) {
             match (&got, &op) {
                 (Ok(Some(x)), Ok((a, b))) if a == x && b == x => c.count("dt-operator:value"),
                 (Ok(None), Err(())) => c.count("dt-operator:panic(refused by checked form)"),
-                _ => fl.hit(c, "`NaiveDateTime ± TimeDelta` / `±=` disagree with the checked form", &format!("{:?} {ds} {dnn}", dt)),
+                _ => fl.hit(c, "`NaiveDateTime ± TimeDelta` / `±=` disagree with the checked form", || format!("{:?} {ds} {dnn}", dt)),
             }
         }
         // std::time::Duration operands
@@ -568,7 +588,7 @@ pub fn run(c: &mut Ctx) {
             match (&via, &op) {
                 (Ok(Some(x)), Ok(y)) if x == y => c.count("dt-std-operator:value"),
                 (Ok(None), Err(())) => c.count("dt-std-operator:panic(refused)"),
-                _ => fl.hit(c, "`NaiveDateTime ± std Duration` disagrees with the checked form", &format!("{:?} {ss} {nn}", dt)),
+                _ => fl.hit(c, "`NaiveDateTime ± std Duration` disagrees with the checked form", || format!("{:?} {ss} {nn}", dt)),
             }
         }
         // Days on a date-time: the time of day is kept
@@ -578,14 +598,14 @@ pub fn run(c: &mut Ctx) {
             c.op(&format!("{} {} {cnt}", if add { "ar.dtcadd" } else { "ar.dtcsub" }, enc_dt(&dt)), &s_odt(&r));
             let want = guard(|| if add { dt.date().checked_add_days(Days::new(cnt)) } else { dt.date().checked_sub_days(Days::new(cnt)) }).map(|o| o.map(|d| NaiveDateTime::new(d, dt.time())));
             if r != want {
-                fl.hit(c, "NaiveDateTime ± Days is not the date moved with the time of day kept", &format!("{:?} {cnt}", dt));
+                fl.hit(c, "NaiveDateTime ± Days is not the date moved with the time of day kept", || format!("{:?} {cnt}", dt));
             }
             let op = guard(|| if add { dt + Days::new(cnt) } else { dt - Days::new(cnt) });
             c.op(&format!("{} {} {cnt}", if add { "ar.dtopcadd" } else { "ar.dtopcsub" }, enc_dt(&dt)), &s_dt(&op));
             match (&r, &op) {
                 (Ok(Some(x)), Ok(y)) if x == y => {}
                 (Ok(None), Err(())) => {}
-                _ => fl.hit(c, "`NaiveDateTime ± Days` disagrees with the checked form", &format!("{:?} {cnt}", dt)),
+                _ => fl.hit(c, "`NaiveDateTime ± Days` disagrees with the checked form", || format!("{:?} {cnt}", dt)),
             }
         }
     }
@@ -602,7 +622,7 @@ pub fn run(c: &mut Ctx) {
             4 => {
                 // a neighbour: a ± small
                 let t = td_of_ns(c.rng.range(-2_000_000_000, 2_000_000_000) as i128);
-                a.checked_add_signed(t).unwrap_or(a)
+                guard(|| a.checked_add_signed(t)).ok().flatten().unwrap_or(a)
             }
             _ => g_dt(c, true),
         };
@@ -615,20 +635,20 @@ pub fn run(c: &mut Ctx) {
         match &got {
             Ok((x, y)) => {
                 if x != y {
-                    fl.hit(c, "`a - b` differs from signed_duration_since", &format!("{:?} {:?}", a, b));
+                    fl.hit(c, "`a - b` differs from signed_duration_since", || format!("{:?} {:?}", a, b));
                 }
                 if nonleap {
                     if td_ns(x) != inst(&a) - inst(&b) {
-                        fl.hit(c, "date-time difference is not the exact signed distance in nanoseconds", &format!("{:?} - {:?} -> {}", a, b, show_td(x)));
+                        fl.hit(c, "date-time difference is not the exact signed distance in nanoseconds", || format!("{:?} - {:?} -> {}", a, b, show_td(x)));
                     }
                     if guard(|| b.checked_add_signed(*x)) != Ok(Some(a)) {
-                        fl.hit(c, "b + (a − b) ≠ a for date-times", &format!("{:?} {:?}", a, b));
+                        fl.hit(c, "b + (a − b) ≠ a for date-times", || format!("{:?} {:?}", a, b));
                     }
                     if guard(|| a.checked_sub_signed(*x)) != Ok(Some(b)) {
-                        fl.hit(c, "a − (a − b) ≠ b for date-times", &format!("{:?} {:?}", a, b));
+                        fl.hit(c, "a − (a − b) ≠ b for date-times", || format!("{:?} {:?}", a, b));
                     }
                     if (a.cmp(&b) as i32) != (td_ns(x).signum() as i32) {
-                        fl.hit(c, "date-time order does not follow the sign of the difference", &format!("{:?} {:?}", a, b));
+                        fl.hit(c, "date-time order does not follow the sign of the difference", || format!("{:?} {:?}", a, b));
                     }
                     if (inst(&a) == imax && inst(&b) == imin) || (inst(&a) == imin && inst(&b) == imax) {
                         c.count("dtdiff:full-range(MAX−MIN or MIN−MAX)");
@@ -638,7 +658,7 @@ pub fn run(c: &mut Ctx) {
                     }
                 }
             }
-            Err(()) => fl.hit(c, "date-time difference panicked", &format!("{:?} - {:?}", a, b)),
+            Err(()) => fl.hit(c, "date-time difference panicked", || format!("{:?} - {:?}", a, b)),
         }
     }
 
@@ -659,7 +679,7 @@ pub fn run(c: &mut Ctx) {
         match (&got, &naive) {
             (Ok(Some(r)), Ok(Some(n))) if r.naive_utc() == *n && r.offset().local_minus_utc() == off => c.count("zoned±delta:value"),
             (Ok(None), Ok(None)) => c.count("zoned±delta:refused"),
-            _ => fl.hit(c, "zone-aware ± duration is not the UTC value ± duration with the offset kept", &format!("{:?} {ds} {dnn}", z)),
+            _ => fl.hit(c, "zone-aware ± duration is not the UTC value ± duration with the offset kept", || format!("{:?} {ds} {dnn}", z)),
         }
         // the same instant under another offset gives the same instant
         let off2 = g_off(c);
@@ -668,7 +688,7 @@ pub fn run(c: &mut Ctx) {
         match (&got, &got2) {
             (Ok(Some(x)), Ok(Some(y))) if x == y && x.naive_utc() == y.naive_utc() => {}
             (Ok(None), Ok(None)) => {}
-            _ => fl.hit(c, "the result of zone-aware arithmetic depends on the offset", &format!("{:?} / {:?} {ds} {dnn}", z, z2)),
+            _ => fl.hit(c, "the result of zone-aware arithmetic depends on the offset", || format!("{:?} / {:?} {ds} {dnn}", z, z2)),
         }
         if it % 4 == 0 {
             let op = guard(|| {
@@ -685,7 +705,7 @@ pub fn run(c: &mut Ctx) {
             match (&got, &op) {
                 (Ok(Some(x)), Ok((a, b))) if enc_z(a) == enc_z(x) && enc_z(b) == enc_z(x) => {}
                 (Ok(None), Err(())) => {}
-                _ => fl.hit(c, "`DateTime ± TimeDelta` / `±=` disagree with the checked form", &format!("{:?} {ds} {dnn}", z)),
+                _ => fl.hit(c, "`DateTime ± TimeDelta` / `±=` disagree with the checked form", || format!("{:?} {ds} {dnn}", z)),
             }
         }
         if it % 8 == 1 {
@@ -709,7 +729,7 @@ pub fn run(c: &mut Ctx) {
             c.op(&format!("{} {} {ss} {nn}", if add { "ar.zstdadd" } else { "ar.zstdsub" }, enc_z(&z)), &s_z(&op.clone().map(|p| p.0)));
             if let Ok((a, b)) = &op {
                 if enc_z(a) != enc_z(b) {
-                    fl.hit(c, "`DateTime ± std Duration` and `±=` disagree", &format!("{:?} {ss} {nn}", z));
+                    fl.hit(c, "`DateTime ± std Duration` and `±=` disagree", || format!("{:?} {ss} {nn}", z));
                 }
             }
         }
@@ -726,11 +746,11 @@ pub fn run(c: &mut Ctx) {
             let d2 = guard(|| utc.signed_duration_since(other));
             let d3 = guard(|| z - w);
             if d1 != d2 || d1 != d3 {
-                fl.hit(c, "the difference of zone-aware values is not the difference of their UTC values", &format!("{:?} {:?}", z, w));
+                fl.hit(c, "the difference of zone-aware values is not the difference of their UTC values", || format!("{:?} {:?}", z, w));
             }
             if let Ok(x) = &d1 {
                 if (z.cmp(&w) as i32) != (utc.cmp(&other) as i32) || (!is_leap_dt(&utc) && !is_leap_dt(&other) && (z.cmp(&w) as i32) != td_ns(x).signum() as i32) {
-                    fl.hit(c, "order of zone-aware values does not follow the instants", &format!("{:?} {:?}", z, w));
+                    fl.hit(c, "order of zone-aware values does not follow the instants", || format!("{:?} {:?}", z, w));
                 }
             }
         }
@@ -749,9 +769,9 @@ pub fn run(c: &mut Ctx) {
             _ => {
                 let k = (c.rng.below(cap as u64 + 3) as i64 * step + c.rng.range(0, step - 1)) as u64;
                 if back != c.rng.chance(1, 12) {
-                    NaiveDate::MIN + Days::new(k)
+                    date_of_dn(dmin + k as i64)
                 } else {
-                    NaiveDate::MAX - Days::new(k)
+                    date_of_dn(dmax - k as i64)
                 }
             }
         };
@@ -801,29 +821,29 @@ pub fn run(c: &mut Ctx) {
                 c.count(&format!("iter:{kind}:{}", if ended { "drained-to-the-range-limit" } else { "cap-reached" }));
                 for (k, (lo, hi, _, item)) in v.iter().enumerate() {
                     if *hi != Some(*lo) {
-                        fl.hit(c, "iterator size_hint bounds differ", &format!("{kind} {:?}", start));
+                        fl.hit(c, "iterator size_hint bounds differ", || format!("{kind} {:?}", start));
                     }
                     if let Some(d) = item {
                         let want = s0 + if back { -(k as i64) * step } else { k as i64 * step };
                         if dn(d) != want || !well_formed(d) {
-                            fl.hit(c, "the k-th item of the iterator is not start ± k steps", &format!("{kind} {:?} k={k} -> {:?}", start, d));
+                            fl.hit(c, "the k-th item of the iterator is not start ± k steps", || format!("{kind} {:?} k={k} -> {}", start, pd(d)));
                         }
                     }
                     if !back {
                         // forward: the hint before the k-th call is the number of items still to come
                         let remaining = (total_fwd - k as i64).max(0);
                         if *lo as i64 != remaining {
-                            fl.hit(c, "size_hint is not the number of items the iterator still produces", &format!("{kind} {:?} k={k} hint={lo} remaining={remaining}", start));
+                            fl.hit(c, "size_hint is not the number of items the iterator still produces", || format!("{kind} {:?} k={k} hint={lo} remaining={remaining}", start));
                         }
                     }
                 }
                 let produced = v.iter().filter(|x| x.3.is_some()).count() as i64;
                 let total = if back { total_back } else { total_fwd };
                 if ended && produced != total {
-                    fl.hit(c, "the iterator did not end at the range limit", &format!("{kind} {:?}: {produced} items, {total} steps fit", start));
+                    fl.hit(c, "the iterator did not end at the range limit", || format!("{kind} {:?}: {produced} items, {total} steps fit", start));
                 }
                 if !ended && produced > total {
-                    fl.hit(c, "the iterator ran past the range limit", &format!("{kind} {:?}", start));
+                    fl.hit(c, "the iterator ran past the range limit", || format!("{kind} {:?}", start));
                 }
                 // fused: after the end it keeps returning None
                 if ended {
@@ -847,28 +867,29 @@ pub fn run(c: &mut Ctx) {
                         }
                     });
                     if again != Ok((None, None)) {
-                        fl.hit(c, "an exhausted iterator produced another item", &format!("{kind} {:?}", start));
+                        fl.hit(c, "an exhausted iterator produced another item", || format!("{kind} {:?}", start));
                     }
                 }
             }
-            Err(()) => fl.hit(c, "iterator panicked", &format!("{kind} {:?}", start)),
+            Err(()) => fl.hit(c, "iterator panicked", || format!("{kind} {:?}", start)),
         }
     }
     // ExactSizeIterator::len and count() on short forward drains
     for k in 0..c.n(40, 400) as u64 {
-        let start = NaiveDate::MAX - Days::new(k);
+        let start = date_of_dn(dmax - k as i64);
+        let (last_want, nth_want) = (date_of_dn(dmax - 1), date_of_dn(dmax - k as i64 + k as i64 / 2));
         let r = guard(|| (start.iter_days().len(), start.iter_days().count(), start.iter_weeks().len(), start.iter_weeks().count(), start.iter_days().last(), start.iter_days().nth(k as usize / 2)));
         match r {
             Ok((l1, c1, l2, c2, last, nth)) => {
                 if l1 != c1 || l2 != c2 || l1 as u64 != k || l2 as u64 != k / 7 {
-                    fl.hit(c, "ExactSizeIterator::len differs from the number of items", &format!("{:?}: days {l1}/{c1}, weeks {l2}/{c2}", start));
+                    fl.hit(c, "ExactSizeIterator::len differs from the number of items", || format!("{:?}: days {l1}/{c1}, weeks {l2}/{c2}", start));
                 }
-                if k > 0 && (last != Some(NaiveDate::MAX - Days::new(1)) || nth != Some(start + Days::new(k / 2))) {
-                    fl.hit(c, "last()/nth() of the day iterator", &format!("{:?}", start));
+                if k > 0 && (last != Some(last_want) || nth != Some(nth_want)) {
+                    fl.hit(c, "last()/nth() of the day iterator", || format!("{:?}", start));
                 }
                 c.count("iter:len==count near MAX");
             }
-            Err(()) => fl.hit(c, "iterator len()/count() panicked", &format!("{:?}", start)),
+            Err(()) => fl.hit(c, "iterator len()/count() panicked", || format!("{:?}", start)),
         }
     }
     c.sample(&format!("ar.dtadd MAX(86399.999999999) +1ns -> {}", s_odt(&guard(|| NaiveDateTime::new(NaiveDate::MAX, mk_time(86_399, 999_999_999)).checked_add_signed(td_of_ns(1))))));
